@@ -4,7 +4,7 @@
 From Coq Require Import List Bool Lia ZifyBool ZifyN NArith Permutation.
 From TS Require Import Model.Str Model.Outcome Model.Unicode Model.Types Model.Parse Model.Rename Model.TopsortAlgo Model.Topsort
                        Model.Lang.Common Model.Lang.Decl Model.Lang.Python.
-From TS Require Import Spec.C10Spec Proofs.BackCommon Proofs.C10Lex Proofs.C10_TSFile Proofs.C10Common.
+From TS Require Import Spec.C10Spec Proofs.BackCommon Proofs.C10Lex Proofs.C10_TSFile Proofs.C10Common Proofs.C15_Replace.
 Import ListNotations.
 Local Open Scope N_scope.
 Local Notation length := List.length (only parsing).
@@ -87,9 +87,16 @@ Proof.
     eapply tr_app; [exact Hl|]. apply IH; [discriminate|exact Hr].
 Qed.
 
+(* a docstring line without three quotes in a row: python.rs write_comments escapes nothing in it *)
+Lemma py_escape_doc_ok docs : forallb pydoc_ok docs = true -> map py_escape_docstring docs = docs.
+Proof.
+  intros H. apply map_id_on. intros d Hd. apply py_escape_docstring_id.
+  rewrite forallb_forall in H. specialize (H d Hd). unfold pydoc_ok in H. apply andb_true_iff in H as [_ H].
+  now apply negb_true_iff in H.
+Qed.
 Lemma py_comments_bal b docs n : forallb pydoc_ok docs = true -> forallb c10_line_ok docs = true -> bal c10_lex_py (py_write_comments b docs n).
 Proof.
-  intros Hd Hl. unfold py_write_comments. destruct docs as [|c r]; [apply tr_nil|]. cbv zeta.
+  intros Hd Hl. unfold py_write_comments. rewrite (py_escape_doc_ok docs Hd). destruct docs as [|c r]; [apply tr_nil|]. cbv zeta.
   pose proof (py_indent_bal n) as Hi. pose proof (py_indent_tri n) as Hit. destruct b.
   - pose proof (py_doc_lines n (c :: r) ltac:(discriminate) Hd) as Hj.
     intros st. set (J := join _ _) in *. rewrite <- !app_assoc. rewrite (app_assoc J py_nl). set (JN := J ++ py_nl) in *. walk. reflexivity.
